@@ -92,6 +92,7 @@ func (e *Engine) sprint(args Slice, spaces bool) Str {
 
 type fmtFlags struct {
 	plus, sharp, zero, minus, space bool
+	plusV                           bool // %+v: field names, not signs (fmt clears plus and sets plusV)
 	width                           int
 	hasWidth                        bool
 	prec                            int
@@ -244,6 +245,9 @@ func (e *Engine) callMethodStr(it Iface, name string) (Str, bool) {
 }
 
 func (e *Engine) formatArg(verb byte, fl fmtFlags, it Iface) Str {
+	if verb == 'v' && fl.plus {
+		fl.plus, fl.plusV = false, true
+	}
 	if verb == 'T' {
 		if it.t == nil {
 			return mkStr("<nil>")
@@ -383,7 +387,7 @@ func (e *Engine) formatValue(verb byte, fl fmtFlags, t types.Type, v Value, dept
 			if i > 0 {
 				out = e.strConcat(out, mkStr(" "))
 			}
-			if fl.plus || fl.sharp {
+			if fl.plus || fl.plusV || fl.sharp {
 				out = e.strConcat(out, mkStr(st.Field(i).Name()+":"))
 			}
 			out = e.strConcat(out, e.formatElem(verb, fl, st.Field(i).Type(), el, depth+1))
